@@ -12,7 +12,7 @@ ANCHORS = ["pyoma2.functions.ssi:build_hank", "pyoma2.algorithms.ssi:SSIdat.run"
 REQUIRED_MONITORS = ["impulse-pairs(cov_mm)", "impulse-pairs(cov_R)", "definition(cov_mm)", "definition(cov_R)", "projection-gram(dat)",
                      "bilinearity(cov_mm)", "bilinearity(cov_R)", "result.H@SSIcov", "result.H@SSIdat"]
 ALL_STATES = [f"l={l}" for l in range(1, 5)] + [f"br={b}" for b in range(1, 6)] + ["ref=subset", "ref=all", "ref unordered"]
-REQUIRED_STATES = [f"l={l}" for l in range(1, 5)] + [f"br={b}" for b in range(1, 6)] + ["ref=subset"]
+REQUIRED_STATES = [f"l={l}" for l in range(1, 5)] + [f"br={b}" for b in range(1, 6)] + ["ref=subset", "Yref is Y (same object)", "same instance re-run with another ref_ind"]
 RULE = ("(a) exhaustive over a basis: for every channel count 1..4, every reference subset, br 1..5 and the listed record lengths, build_hank "
         "is evaluated on ALL pairs of unit impulses (e_{a,s}, e_{b,t}); each pair must light exactly the cells (i,a;j,b) with lag i+j+1 "
         "(cov_mm) / br+i-j (cov_R) with the uniform weight, nothing else; (b) random data, shapes up to 8 channels / br 12 / 400 samples "
@@ -157,6 +157,11 @@ def run_random(ctx, rng):
     unordered = refidx != sorted(refidx)
     Y = gen.coloured(rng, l, Nd) * 10 ** rng.uniform(-2, 2)
     Yref = Y[refidx]
+    if r == l and rng.random() < 0.6:
+        refidx = list(range(l))
+        Yref = Y  # data and reference data are one and the same object (what the classes pass when ref_ind is None)
+        unordered = False
+        ctx.state("Yref is Y (same object)")
     p, q = br, br + 1
     N = Nd - p - q
     shape = ((br + 1) * l, (br + 1) * r)
@@ -243,6 +248,23 @@ def run_classes(ctx, rng):
             E = P @ P.T
             ok = np.shape(H) == ((br + 1) * l, (br + 1) * r) and np.max(np.abs(H @ H.T - E)) <= 1e-8 * np.max(np.abs(E))
             ctx.check(ok, "cls:dat:H_not_projection", lambda: f"SSIdat(ref_ind={refidx}).result.H: Gram matrix is not the projection's")
+    # history: the same instance re-run after only ref_ind changed; and the default configuration (no ref_ind)
+    for cls, method, fdef in ((SSIcov, "cov_mm", def_cov_mm), (SSIcov, "cov_R", def_cov_R)):
+        ss = SingleSetup(data.copy(), 100.0)
+        alg = cls(name="a", br=br, ordmax=min(6, br * l, (br + 1) * 1), method=method, ref_ind=None)
+        ss.add_algorithms(alg)
+        ss.run_all()
+        Y = data.T
+        for ref_now in (None, [int(refidx[0])], None, list(reversed(refidx))):
+            alg.run_params.ref_ind = ref_now
+            alg.run_params.ordmax = min(6, br * l, (br + 1) * (l if ref_now is None else len(ref_now)) - 1)
+            ss.run_by_name("a")
+            E = fdef(Y, Y if ref_now is None else Y[ref_now], br)
+            H = alg.result.H
+            ctx.ev("result.H@SSIcov")
+            ctx.check(np.shape(H) == E.shape and np.max(np.abs(H - E)) <= 1e-10 * np.max(np.abs(E)), f"cls:{method}:H_stale_or_wrong_after_ref_ind_change",
+                      lambda: f"SSIcov(method={method}) re-run with ref_ind={ref_now}: result.H {np.shape(H)} is not the matrix of the current reference set")
+    ctx.state("same instance re-run with another ref_ind")
     ctx.nontrivial(("classes", l, tuple(refidx), br))
 
 
